@@ -442,6 +442,7 @@ func Run(sc *core.Scenario) *Result {
 		simhook.Order, simhook.Step, simhook.ID = nil, nil, nil
 	}()
 	InstallIDs("n")
+	simhook.Order = func(_ string, keys []string) []string { return keys } // sorted unless a simulation says otherwise
 	text := grl.PrintProgram(sc.Program)
 	lib, err := BuildLibrary(text)
 	if err != nil {
@@ -524,6 +525,7 @@ func RunOn(sc *core.Scenario, kb *ast.KnowledgeBase, res *Result) {
 	nl := sc.Knobs.Listeners
 	r.lsnSeq = make([][]string, nl)
 
+	prevOrder, prevStep := simhook.Order, simhook.Step
 	simhook.Order = r.order
 	simhook.Step = r.visit
 
@@ -548,7 +550,7 @@ func RunOn(sc *core.Scenario, kb *ast.KnowledgeBase, res *Result) {
 		}
 		return nil
 	}()
-	simhook.Order, simhook.Step = nil, nil
+	simhook.Order, simhook.Step = prevOrder, prevStep
 
 	res.Events = r.seq
 	res.SimNs = r.now
